@@ -22,6 +22,7 @@ EXPLANATION = (
     "check_for_errors raises for unflushed tracebacks before validating; capture_logging registers the "
     "restoring swap_logger(previous) as a cleanup before the test runs; swap_logger is the only writer of the "
     "default logger."
+    "  C13.attach is included: the serializer must travel with the message on every path of Message.write / MessageType.log / Action._start / finish, or the message is never validated."
 )
 RULE = "obligation = rule instance bound to a constant / loop / call site of _validation.py, _output.py, testing.py; non-trivial = expressions or CFG paths examined"
 ASSUMPTIONS = ["what each user-supplied validator accepts is not decided", "unittest runs registered cleanups for pass, fail, error and skip"]
@@ -115,7 +116,7 @@ def rule_extras(chk):
     chk.req(okf, "C14.extras", "ActionType.__init__:only-the-failure-serializer-allows-extras", chk.where(at), good="failure serializer only", fail="start/success serializers allow additional fields (or failure does not)")
     # default false
     init = ctx.func("_validation", "_MessageSerializer.__init__")
-    d = dict(zip(reversed([a.arg for a in init.node.args.args]), reversed(init.node.args.defaults)))
+    d = dict(zip(reversed(init.pos_params), reversed(init.node.args.defaults)))
     chk.req("allow_additional_fields" in d and isinstance(d["allow_additional_fields"], ast.Constant) and d["allow_additional_fields"].value is False, "C14.extras",
             "_MessageSerializer.__init__:extras-off-by-default", chk.where(init), good="default False", fail="allow_additional_fields does not default to False")
 
@@ -400,4 +401,5 @@ def run(chk):
     from . import c13
     c13.rule_serializer_flow(chk)  # a typed action whose serializers are dropped on the way is never validated
     c13.rule_wiring(chk)
+    c13.rule_attach(chk)  # validation is driven by the serializer that travels with each message: a path that drops it is never validated
     common.rule_forwarding(chk, "C14", keys=[("_action", "start_action"), ("_action", "startTask"), ("_action", "Action.child"), ("_action", "Action.continue_task"), ("_action", "Action.__init__"), ("_action", "Action.log"), ("_action", "log_message"), ("_validation", "ActionType.__call__"), ("_validation", "ActionType.as_task"), ("_validation", "MessageType.log"), ("_validation", "MessageType.__call__"), ("_message", "Message.write"), ("_message", "Message.__init__"), ("_output", "Logger.write"), ("_output", "MemoryLogger.write")])
